@@ -98,3 +98,10 @@ impl<K: Copy + Ord, V: Clone> MapCollection<K, V> for MapList<K, V> {
         self.buffer.clear();
     }
 }
+#[cfg(itree_verif)]
+impl<K: Copy, V: Clone> MapList<K, V> {
+    /// Read-only copy of the buffer (verification hook).
+    pub fn verif_snapshot(&self) -> Vec<(K, V)> {
+        self.buffer.iter().map(|e| (e.key, e.val.clone())).collect()
+    }
+}
